@@ -70,6 +70,7 @@ class ShapeError(Exception):
 # --------------------------------------------------------------------------------------
 
 CONST_ABSTRACTION: dict[float, sp.Expr] = {}  # exact float value -> symbol (set by harness)
+MAYBE_NONFINITE: set = set()  # symbols standing for floats that may be NaN / inf (e.g. a variance of one sample)
 
 
 def rat(x) -> sp.Expr:
@@ -1248,3 +1249,36 @@ class DepMethod:
         if self.name in ("copy", "astype", "ravel", "flatten", "squeeze", "reshape", "transpose"):
             return Dep(self.obj.deps, self.obj.factor, self.obj.mult)
         return self.obj._generic(*a, *k.values())
+
+
+# --------------------------------------------------------------------------------------
+# sequences of per-event tuples (zip of event arrays, results of a map over events)
+# --------------------------------------------------------------------------------------
+
+
+class SeqA:
+    """a Python-level sequence with one tuple per event: generic tuple of terms + axis + domain"""
+
+    __nss_symbolic__ = True
+
+    def __init__(self, axes, elems, dom=sp.true, truncated=None):
+        self.axes, self.elems, self.dom = tuple(axes), tuple(elems), dom
+        self.truncated = truncated  # description if zip() had operands of different length
+
+    def generic(self):
+        return tuple(S(e) for e in self.elems)
+
+    def __iter__(self):
+        raise Unsupported("iteration over a symbolic sequence of events")
+
+    def __len__(self):
+        raise Unsupported("len() of a symbolic sequence must go through the interpreter")
+
+
+class StarSeq:
+    """marker for f(*seq) with a symbolic sequence"""
+
+    __nss_symbolic__ = True
+
+    def __init__(self, seq):
+        self.seq = seq
